@@ -240,7 +240,12 @@ def run(tier):
         ck.ob("D-no-hash-order", "gen/" + e, not hits,
               "hash-ordered iteration reachable from %s: %s" % (e, "; ".join("%s (%s) via %s" % (h, sites[h][0]["span"], " -> ".join(cg.path_to(h))) for h in hits)),
               sample={"entry": e, "reachable_fns": len(r), "hash_order_sites": 0})
-        nh = [s for s in nd if s in r and not s.endswith("util::crate_path_fixed")]
+        # the one accepted environment read decides between `::cglue` and `crate` as path prefix: it lives in util::crate_path_fixed or in
+        # helpers reachable only through it
+        gate = [q for q in cg.fns if q.endswith("util::crate_path_fixed")]
+        r_wo = cg.reachable([e], avoid=set(gate))
+        cg.reachable([e])      # restore parent links for path_to
+        nh = [s for s in nd if s in r and not s.endswith("util::crate_path_fixed") and s in r_wo]
         ck.ob("D-no-nondet-source", "gen/" + e, not nh, "time/thread/env/fs nondeterminism reachable from %s: %s" % (e, nh))
     info = []
     for e in entries:
